@@ -24,7 +24,7 @@ package sumdb
 //@ func (*Client).checkRecord
 //@   requires c != nil
 //@   modifies Client.latest, Client.latestMsg, ghost.LOCKSNAP, "map[tlog.Tile]bool", ghost.WRITTEN
-//@   ensures [C01] authenticated: result == nil ==> AUTHREC(id, string(data))
+//@   ensures [C01] authenticated: result == nil ==> AUTHREC(c.verifiers, id, string(data))
 //@   props C01
 
 //@ # checkTrees succeeds only if the older tree is a prefix of the newer one (its hash is the prefix hash the newer head commits to)
@@ -35,7 +35,7 @@ package sumdb
 //@ func (*Client).checkTrees
 //@   requires c != nil
 //@   # each tree comes with its own signed note: these are the two heads a fork report shows to the security callback
-//@   requires [C13] notes_belong_to_trees: HEAD(older, string(olderNote)) && HEAD(newer, string(newerNote))
+//@   requires [C13] notes_belong_to_trees: HEAD(c.verifiers, older, string(olderNote)) && HEAD(c.verifiers, newer, string(newerNote))
 //@   modifies "map[tlog.Tile]bool", ghost.WRITTEN, []tlog.Hash
 //@   ensures [C13] consistent: result == nil ==> older.N > newer.N || CONS(older, newer)
 //@   loop 0:
@@ -45,29 +45,29 @@ package sumdb
 //@ # the head is only replaced, under the lock, by a signed tree that contains the head seen under the lock
 //@ # (obligations head_invariant / head_advances of sync.Mutex.Unlock); a non-empty message that is accepted is a signed tree
 //@ func (*Client).mergeLatestMem
-//@   requires c != nil
+//@   requires c != nil && c.verifiers != nil
 //@   modifies Client.latest, Client.latestMsg, ghost.LOCKSNAP, "map[tlog.Tile]bool", ghost.WRITTEN, []tlog.Hash
-//@   ensures [C13, C01] accepted_is_signed: err == nil && len(msg) != 0 ==> (exists t tlog.Tree :: SIGNEDTREE(string(msg), t))
+//@   ensures [C13, C01] accepted_is_signed: err == nil && len(msg) != 0 ==> (exists t tlog.Tree :: SIGNEDTREE(c.verifiers, string(msg), t))
 //@   loop 0:
-//@     invariant SIGNEDTREE(string(msg), tree) && HEAD(latest, string(latestMsg))
+//@     invariant SIGNEDTREE(c.verifiers, string(msg), tree) && HEAD(c.verifiers, latest, string(latestMsg))
 //@   props C13 C01
 
 //@ # the configuration file is only ever rewritten with an acceptable head read under the lock
 //@ func (*Client).mergeLatest
-//@   requires c != nil
+//@   requires c != nil && c.verifiers != nil
 //@   modifies Client.latest, Client.latestMsg, ghost.LOCKSNAP, "map[tlog.Tile]bool", ghost.WRITTEN, []tlog.Hash
-//@   call ClientOps.WriteConfig requires [C13, C01] config_is_head: HEAD(LOCKSNAP[c], string(arg_new))
+//@   call ClientOps.WriteConfig requires [C13, C01] config_is_head: HEAD(c.verifiers, LOCKSNAP[c], string(arg_new))
 //@   loop 0:
 //@     invariant c != nil
 //@   props C13 C01
 
 //@ # the lookup cache is only written with a response whose record was authenticated against an acceptable head
 //@ func (*Client).Lookup$2
-//@   requires c != nil
+//@   requires c != nil && c.verifiers != nil
 //@   modifies Client.latest, Client.latestMsg, ghost.LOCKSNAP, "map[tlog.Tile]bool", ghost.WRITTEN, []tlog.Hash
-//@   call ClientOps.WriteCache requires [C01] cache_authenticated: RECORDOK(string(arg_data))
+//@   call ClientOps.WriteCache requires [C01] cache_authenticated: RECORDOK(c.verifiers, string(arg_data))
 //@   # what the closure hands back to Lookup as data is a response whose record was authenticated, from cache or network alike
-//@   ensures [C01] returned_authenticated: typeof(result) == typeid("cached") && (unbox(result, "cached").err == nil ==> RECORDOK(string(unbox(result, "cached").data)))
+//@   ensures [C01] returned_authenticated: typeof(result) == typeid("cached") && (unbox(result, "cached").err == nil ==> RECORDOK(c.verifiers, string(unbox(result, "cached").data)))
 //@   props C01
 
 //@ # ---------- tile plumbing: the tile cache is written by SaveTiles only, with exactly the tiles it was given ----------
